@@ -17,6 +17,7 @@ def run(ctx, rep):
     operators.rule_nan_takes_no_arm(ctx, rep, "C06-R11")
     operators.rule_zero_sign_survives_int(ctx, rep, "C06-R12")
     builtins.rule_integral_double_printing(ctx, rep, "C06-R13")
+    operators.rule_fmod_parity(ctx, rep, "C06-R14")
     rep.undecided += [
         "the operator/conversion value table (about 80 x 80 x 45 cells against a reference): a runtime differential, outside static analysis",
     ]
